@@ -26,6 +26,14 @@ def _key(row, path):
     return "%s:accepted-without-quorum:%s:%s%s" % (row["chain"], row["script"], row["fam"], path)
 
 
+def _driver(ctx, binary, args, input_obj):
+    """ctx.driver, but an unreadable driver output is 'no verdict' (exit 2), never an exit-1 traceback."""
+    try:
+        return ctx.driver(binary, args, input_obj=input_obj)
+    except (ValueError, UnicodeError) as e:
+        ctx.fail("driver output unreadable: %r" % (e,))
+
+
 def run(ctx):
     q = ctx.quick
     b = ctx.build("vd-ontneo")
@@ -47,7 +55,7 @@ def run(ctx):
         ctx.note("design level: ont decision without the duplicate guard violates the monitor (expected, finding F4)")
         for i, r_ in enumerate(rows):
             r_["idx"] = i
-    out = ctx.driver(b, ["c24"], input_obj=rows)
+    out = _driver(ctx, b, ["c24"], input_obj=rows)
     summ = [o for o in out if o.get("summary")][0]
     obs = [o for o in out if not o.get("summary")]
     if len(obs) != len(rows):
